@@ -505,12 +505,12 @@ OpenCands(st) ==
     THEN (IF st.ents[1].moved THEN {} ELSE {St("PoolGet", 1, "", "")})
     ELSE IF t = 0 \/ ~ClaimOK(st, t) THEN {}
     ELSE LET k == st.ents[t].k IN
-         (IF k = "bump" THEN {St("RefShr", t, "", ""), St("RefMut", t, "", ""),
-                              St("AsScope", t, "from", ""), St("AsMutScope", t, "from", "")} ELSE {})
+         (IF k = "bump" THEN {St("RefShr", t, "", ""), St("RefMut", t, "", "")} ELSE {})
+    \cup (IF k = "bump" /\ MaxOpen = 1 THEN {St("AsScope", t, "from", ""), St("AsMutScope", t, "from", "")} ELSE {})
     \cup (IF k \in BumpIsh THEN {St("AsScope", t, "", "")} ELSE {})
     \cup (IF k \in {"bump", "refmut"} THEN {St("AsMutScope", t, "", "")} ELSE {})
     \cup (IF k \in MutCap THEN {St("Scoped", t, "scoped", ""), St("Scoped", t, "scoped_aligned", ""),
-                                St("Scoped", t, "scoped_trait", ""),
+                                St("Scoped", t, IF st.nopen = 0 THEN "scoped_trait" ELSE "scoped", ""),
                                 St("Aligned", t, "", ""), St("Guard", t, "", ""), St("Guard", t, "block", "")}
           ELSE {})
     \cup {St("Claim", t, "", "")}
